@@ -213,6 +213,40 @@ def run(tier):
         c["originals_unchanged"] = before == json.dumps(observe.obs_record(rec), sort_keys=True)
         cases.append(c)
         ctx.case(("replace", json.dumps(shp), tuple(pick)))
+        # replace-style copy of a GROUPED record: flat, and built from another grouped record (nested)
+        if i % 4 == 0:
+            shp3 = shapes(ctx.rnd, 3, 2)
+            m = [W.build(j + 5, s, name="t/gm%d") for j, s in enumerate(shp3)]
+            flat = GroupedRecord("g/flat", m)
+            nested = GroupedRecord("g/outer", [GroupedRecord("g/inner", m[:2]), m[2]])
+            for gname, g in (("flat", flat), ("nested", nested)):
+                gfields = [(n, t) for t, n in g._desc.get_field_tuples()]
+                gproj = [{"n": n, "t": t, "v": W.ids.get(W.key(getattr(g, n)), "?")} for n, t in gfields]
+                pickg = ctx.rnd.sample([n for n, t in gfields], ctx.rnd.randint(1, len(gfields)))
+                donor = W.build(9, gfields)
+                newv = {n: getattr(donor, n) for n in pickg}
+                c = base_case("replace", [gproj], changes={n: W.ids[W.key(newv[n])] for n in pickg})
+                before_g = json.dumps([observe.obs_record(x) for x in m], sort_keys=True)
+                try:
+                    res = g._replace(**newv)
+                    c["res"] = [[{"n": n, "t": t, "v": W.ids.get(W.key(getattr(res, n)), "?")} for n, t in gfields]]
+                    c["name_ok"] = res._desc.get_field_tuples() == g._desc.get_field_tuples()
+                    # a member's own value of a field that was NOT named stays what it was -- also where another member
+                    # shadows that field in the grouped view
+                    flat_old = m
+                    flat_new = [x for r_ in res.records for x in (r_.records if isinstance(r_, GroupedRecord) else [r_])]
+                    if len(flat_new) == len(flat_old):
+                        for om, nm in zip(flat_old, flat_new):
+                            for t, n in om._desc.get_field_tuples():
+                                if n not in pickg:
+                                    c["name_ok"] &= W.key(getattr(om, n)) == W.key(getattr(nm, n))
+                    else:
+                        c["name_ok"] = False
+                except Exception as e:
+                    c["raised"], c["exc"] = True, type(e).__name__ + ":" + str(e)[:80]
+                c["originals_unchanged"] = before_g == json.dumps([observe.obs_record(x) for x in m], sort_keys=True)
+                cases.append(c)
+                ctx.case(("replace-grouped", gname, json.dumps(shp3), tuple(pickg)))
         fields = ctx.rnd.choice([[], ctx.rnd.sample(NAMES + ["bogus"], ctx.rnd.randint(1, 3))])
         excl = ctx.rnd.choice([[], ctx.rnd.sample(NAMES, ctx.rnd.randint(1, 2))])
         c = base_case("project", [W.project(rec)], fields=fields, excl=excl)
